@@ -3,6 +3,8 @@
 package licenseclassifier
 
 import (
+	"strings"
+
 	"github.com/google/licenseclassifier/stringclassifier"
 )
 
@@ -26,6 +28,10 @@ func H16w() {
 // H16a: License.MultipleMatch never returns a match below the classifier's threshold; the inner
 // string classifier is replaced by a stub returning matches with symbolic confidences.
 func H16a() {
+	if vxNative() {
+		vxC16Battery()
+		return
+	}
 	T := vxFloat64(0, 1)
 	l := &License{c: stringclassifier.New(T), Threshold: T}
 	names := []string{"MIT", "Apache-2.0.header", "GPL-2.0", "AGPL-3.0"}
@@ -43,4 +49,31 @@ func H16a() {
 	}
 	vxUnstub("(*github.com/google/licenseclassifier/stringclassifier.Classifier).MultipleMatch")
 	vxCover("end")
+}
+
+const vxC16Text = "permission is hereby granted free of charge to any person obtaining a copy of this software and associated documentation files to deal in the software without restriction including without limitation the rights to use copy modify merge publish distribute sublicense and sell copies of the software subject to the following conditions of this license"
+
+// vxC16Battery is the native counterpart of H16a (the stub of the inner classifier exists only under
+// the engine): real known values, header and full-text names, inputs whose confidence falls on
+// both sides of several thresholds, includeHeaders on and off.
+func vxC16Battery() {
+	words := strings.Fields(vxC16Text)
+	for _, T := range []float64{0.5, 0.75, 0.8, 0.9} {
+		for _, name := range []string{"MIT", "MIT.header"} {
+			l := &License{c: stringclassifier.New(T, Normalizers...), Threshold: T}
+			l.c.AddValue(name, normalizeText(vxC16Text))
+			for _, k := range []int{3, 4, 5, 6, 7, 8, 10, 20} {
+				w := append([]string(nil), words...)
+				for i := k - 1; i < len(w); i += k {
+					w[i] = "zzz"
+				}
+				in := strings.Join(w, " ")
+				for _, hdr := range []bool{true, false} {
+					for _, m := range l.MultipleMatch(in, hdr) {
+						vxAssert("returned-match-at-least-threshold", m.Confidence >= T)
+					}
+				}
+			}
+		}
+	}
 }
